@@ -59,6 +59,19 @@ if new:
         fh.write("\n".join(new) + "\n")
     print("KNOWN_FINDINGS +", len(new))
 print("copied:", *copied, sep="\n  ")
+# every tracked file the builder changed relative to the base commit of the workspace (report only)
+BASE = (W / ".base_commit").read_text().strip() if (W / ".base_commit").exists() else (sys.argv[2] if len(sys.argv) > 2 else None)
+if BASE:
+    tracked = subprocess.run(["git", "-C", str(V), "ls-tree", "-r", "--name-only", BASE], capture_output=True, text=True).stdout.split("\n")
+    for rel in tracked:
+        if not rel or rel.startswith(("evidence/", "replays/")):
+            continue
+        a = W / rel
+        if not a.exists():
+            print("DELETED IN WORKSPACE:", rel); continue
+        base = subprocess.run(["git", "-C", str(V), "show", f"{BASE}:{rel}"], capture_output=True).stdout
+        if a.read_bytes() != base and str(V / rel) not in [str(V / c) for c in copied]:
+            print("CHANGED vs BASE (not copied):", rel)
 # diff of shared files the builder may have changed
 for rel in ("harness/core.py", "harness/gen_scheme.py", "harness/main.py", "lean/GlotaranModel/Proto.lean", "check", "setup.sh", "lean/lakefile.toml", "tools/mkmanifest.py"):
     a, b = W / rel, V / rel
